@@ -1,0 +1,6 @@
+//go:build verif
+
+package installer
+
+// VerifCleanJoin exposes cleanJoin to the verification harness.
+func VerifCleanJoin(root, dest string) (string, error) { return cleanJoin(root, dest) }
